@@ -89,7 +89,7 @@ def _other_link_mid_frame(n=2):
     del _OTHER_LINKS[:-2]
 
 
-def build_system(n, vw=8):
+def build_system(n, vw=8, sw=8):
     from py4hw.logic.protocol.uart.serdes import UARTSerializer, UARTDeserializer
     from py4hw.logic.protocol.uart.clock import ClockGenerationAndRecovery
     with core.quiet():
@@ -97,7 +97,7 @@ def build_system(n, vw=8):
     hw = py4hw.HWSystem()
     W = hw.wire
     c = types.SimpleNamespace(sys=hw, n=n)
-    c.s_ready, c.s_valid, c.s_v = W('s_ready'), W('s_valid'), W('s_v', 8)
+    c.s_ready, c.s_valid, c.s_v = W('s_ready'), W('s_valid'), W('s_v', sw)     # sw > 8: the low byte of a wider bus is sent
     c.tx, c.txp, c.rxs, c.desync = W('tx'), W('tx_clk_pulse'), W('rx_sample'), W('desync')
     c.d_ready, c.d_valid, c.d_v = W('d_ready'), W('d_valid'), W('d_v', vw)      # vw > 8: the byte arrives on a wider data bus
     ClockGenerationAndRecovery(hw, 'cgr', c.tx, c.desync, c.txp, c.rxs, 2 * n, 1)
@@ -132,6 +132,10 @@ def shards(tier):
             for rdy in (1, 2):
                 out.append({'family': 'directed', 'n': n, 'alphabet': [0x41, 0x00, 0xFF, 0x5A], 'gap_frames': gap, 'ready_every': rdy,
                             'S_bit_periods': 0, 'S': 0})
+    # the byte taken from / delivered on data buses wider than 8 bits (upper bits of the offered word set)
+    for n in (2, 5):
+        out.append({'family': 'directed', 'n': n, 'alphabet': [0x1241, 0xFF00, 0x0180, 0xA55A], 'gap_frames': 0, 'ready_every': 1,
+                    'S_bit_periods': 0, 'S': 0, 'sw': 16, 'vw': 16})
     if tier == 'quick':
         # the byte delivered on a data bus wider than 8 bits
         out.append(dict(_shard(2, [0x00, 0xFF, 0x41], 1, 'alphabet6', False, 400000, validate_every=97), vw=16))
@@ -191,7 +195,7 @@ def make_build(d):
     n = d['n']
 
     def build():
-        c = build_system(n, d.get('vw', 8))
+        c = build_system(n, d.get('vw', 8), d.get('sw', 8))
         c.ms = ref.mon_init()
         # path bookkeeping, carried with each state but NOT part of the dedup key (it describes the BFS-tree path by which the
         # state was first reached, i.e. exactly the trace reported for a violation): (cycle, ready edges so far, ready of
@@ -232,7 +236,7 @@ def step(c, x):
     for w, v in zip(c.free, x):
         w.put(v)
     prev = c.ms
-    c.ms, c.viol, c.ev = ref.mon_step(prev, obs, x, c.n, live_bound(c.n))
+    c.ms, c.viol, c.ev = ref.mon_step(prev, obs, (x[0], x[1] & 0xFF, x[2]), c.n, live_bound(c.n))     # the byte is the low 8 bits
     cyc, rc, last_ready, ndel, fes = c.aux
     c.ndel_before = ndel
     if c.desync.get():           # the deserializer completed a frame at the edge of the previous cycle
@@ -396,7 +400,7 @@ def run_directed(d):
         rdy = 1 if cyc % d['ready_every'] == 0 else 0
         hold = c.ms[0]
         if hold is not None:
-            x = (1, hold, rdy)
+            x = (1, todo[sent] if sent < len(todo) and (todo[sent] & 0xFF) == hold else hold, rdy)
         elif sent < len(todo) and wait <= 0:
             x = (1, todo[sent], rdy)
         else:
@@ -417,7 +421,7 @@ def run_directed(d):
     res = {'configs': 1, 'states': 0, 'transitions': len(trace), 'traces_validated_against_impl': 1, 'evaluations': st['accepts'] + st['deliveries'],
            'distinct_nontrivial': st['deliveries'], 'distinct_outcomes': 2, 'vacuous_ok': True, 'violations': [],
            'samples': [{'shard': d, 'cycles': len(trace), 'accepted': st['accepts'], 'delivered': st['deliveries']}]}
-    if clause is None and st['deliveries'] != len(todo):
+    if clause is None and st['deliveries'] != len(todo) and not c.viol:
         clause, det2 = 'lost', {'accepted': st['accepts'], 'delivered': st['deliveries'], 'offered': len(todo), 'cycles': len(trace)}
     if clause is not None:
         res['violations'].append({'sig': 'C17:n=%d:%s' % (n, clause), 'shard': d, 'trace': [],     # regenerated by the closed-loop driver
